@@ -1,10 +1,12 @@
 #!/bin/sh
 # Runs every seeded change against the quick tier of the check that is expected to catch it.
 # usage: tools/seeded_regress.sh [id-prefix]      (uses $VERIF_DIR, default /verif)
+#        LIST=<file with one id per line> tools/seeded_regress.sh     (exactly these changes)
 V=${VERIF_DIR:-/verif}
 export GOFLAGS=-mod=mod GOPROXY=off GOSUMDB=off GOTOOLCHAIN=local
 ok=0; bad=0
-for d in $V/seeded/${1:-}*/; do
+if [ -n "$LIST" ]; then DIRS=$(sed "s|^|$V/seeded/|; s|\$|/|" "$LIST"); else DIRS=$(ls -d $V/seeded/${1:-}*/); fi
+for d in $DIRS; do
   id=$(basename $d)
   [ -f $d/patch.diff ] || continue
   chk=$(python3 -c "import json;m=json.load(open('$d/meta.json'));print(m.get('caught_by',m['breaks_property']))")
